@@ -10,6 +10,7 @@ func init() {
 	vHarnesses["H_C06_roundtrip"] = H_C06_roundtrip
 	vHarnesses["H_C06_shapes"] = H_C06_shapes
 	vHarnesses["H_C06_accept"] = H_C06_accept
+	vHarnesses["H_C06_objectkey"] = H_C06_objectkey
 	vHarnesses["H_C06_numbers"] = H_C06_numbers
 }
 
@@ -121,6 +122,9 @@ func H_C06_shapes() {
 // object or an array (wrapped under "object"), and returns that value
 func H_C06_accept() {
 	pre := vNondetString(0, 2, " \n[{x")
+	if vChoose(5) == 0 {
+		pre = "\xef\xbb\xbf" // a byte-order mark is not white space for encoding/json
+	}
 	var body string
 	switch vChoose(6) {
 	case 0:
@@ -187,4 +191,19 @@ func H_C06_numbers() {
 	b, jerr := m2.Json()
 	vAssert(jerr == nil && string(b) == "{\"a\":"+txt+"}", "numbers: a json.Number is encoded as its text")
 	vCover("numbers")
+}
+
+// a Map that happens to have the key "object" (under which NewMapJson wraps top-level arrays)
+func H_C06_objectkey() {
+	m := Map{"object": []interface{}{"1", vNondetString(1, 1, "x<")}}
+	if vChoose(2) == 1 {
+		m["z"] = vNondetString(1, 1, "yw")
+	}
+	if vChoose(3) == 0 {
+		m["object"] = map[string]interface{}{"k": []interface{}{}}
+	}
+	vC06check(m, vChoose(2) == 1, vChoose(2) == 1)
+	c, cerr := m.Copy()
+	vAssert(cerr == nil && vDeepEq(map[string]interface{}(c), map[string]interface{}(m)), "object key: Copy keeps every key")
+	vCover("objectkey")
 }
